@@ -6,6 +6,7 @@ import (
 	"fmt"
 	"sync"
 
+	"berty.tech/go-orbit-db/verifhook"
 	"github.com/libp2p/go-libp2p/core/event"
 	"github.com/libp2p/go-libp2p/p2p/host/eventbus"
 )
@@ -156,6 +157,7 @@ func (e *EventEmitter) handleSubscriber(ctx context.Context, sub event.Subscript
 
 			// Unlock cond mutex while sending the event
 			condProcess.L.Unlock()
+			verifhook.Point("events.after-dequeue", cevent)
 
 			select {
 			case <-ctx.Done():
